@@ -168,7 +168,7 @@ Notation eval := (@eval F OF feq).
 Definition cst (x y ml nm ox oy N rd r rx ry k nk sm j r0 : value) : store :=
   [x; y; ml; nm; ox; oy; N; rd; r; rx; ry; k; nk; sm; j; r0].
 
-Ltac ev := cbn [LoopIR.exec LoopIR.eval get set nth cst bind try asZ asArr asF ok err fst snd arith arithZ fop compare cmpZ eqne truthy eval_list cjw].
+Ltac ev := cbn [LoopIR.exec LoopIR.eval get set nth cst bind try asZ asArr asF ok err fst snd arith arithZ fop compare cmpF cmpZ eqne truthy eval_list cjw].
 
 Lemma ofZ_of_nat n : @ofZ F OF (Z.of_nat n) = ofnat n.
 Proof. destruct n; [reflexivity|]. cbn [Z.of_nat ofZ]. rewrite SuccNat2Pos.id_succ. reflexivity. Qed.
